@@ -557,7 +557,7 @@ fn exec(regs: &Regs, op: &str, p: &[&str]) -> R {
             _ => Err(format!("unknown op {}", op)),
         },
         #[cfg(john_yu_sm9_core_verif)]
-        "f4" | "f12" | "ml" | "raw" | "sop" => hooks::exec(regs, op, p),
+        "f4" | "f12" | "ml" | "raw" | "sop" | "ln" => hooks::exec(regs, op, p),
         "nop" => Ok(Out::Text("nop".into())),
         _ => Err(format!("unknown op {}", op)),
     }
